@@ -397,3 +397,10 @@ register(Unit(P, "FILE-SCHEMA/_validate_file_schema", h_file_schema, functions=[
 register(Unit(P, "STRICT/validate_records_strict(1-field,1-record:bounded-sizes)", h_strict, functions=[f"{DO}:DataFileManager.validate_records_strict"], replay=_replay_c11,
               note="bounded: schema of one field and one single-key record; all names and values symbolic"))
 register(Unit(P, "REJECT-CLEAN/append_data", cp.h_append_data, functions=[f"{TX}:Transaction.append_data"], replay=_replay_c11))
+
+# "no accepted append can make later scans mis-filter": the column bounds written with an accepted file are sound (C13 unit)
+from contracts import C13_pruning as _c13  # noqa: E402
+from pyvc.runner import units_of  # noqa: E402
+for _u in list(units_of("C13")):
+    if _u.name.startswith("BOUNDS"):
+        register(Unit(P, "MISFILTER/" + _u.name, _u.harness, functions=_u.functions, replay=_replay_c11, reg_factory=_u.reg_factory or _c13.registry))
